@@ -60,7 +60,8 @@ def _production_guards(prog, lx, a):
             continue
         for k, o in enumerate(c.args):
             pl = op_place(o)
-            if pl is None or pl['l'] != a['lhs']['l'] or not lx.dominates(a['bb'], c.bb):
+            # the argument is this very token: the local it was built in, or a copy of it that went through a tuple / a named local
+            if pl is None or not lx.dominates(a['bb'], c.bb) or not (pl['l'] == a['lhs']['l'] or guards._norm_elem(vexpr(lx, o), lx.path) == tok):
                 continue
             actual = {'arg%d' % (i + 1): vexpr(lx, x) for i, x in enumerate(c.args)}
             for bb, j, st in g.stmts():
